@@ -231,13 +231,14 @@ def gen_mixed(chk):
         for k, decision in enumerate(("permit", "deny")):
             if thorough or picked[li] or (li % 2 == 0 and (li // 2) % 2 == k):
                 cases.append({"fam": "mixed", "decision": decision, "obligations": obs, "ctx": ctx})
-    # through Guard: checker flavour x API x policy shape x algorithm rotate (thorough: the whole product for the pairs)
+    # through Guard: checker flavour x API x policy shape x algorithm rotate (thorough: checker x API x shape for the pairs)
     i = 0
     for li, (obs, ctx) in enumerate(lists):
         if not picked[li]:
             continue
         full = thorough and len(obs) == 2
-        combos = (list(itertools.product(CHECKERS3, ("sync", "async"), SHAPES3, ALGOS3)) if full else
+        combos = ([(ck, api, sh, ALGOS3[(i + k) % 3])
+                   for k, (ck, api, sh) in enumerate(itertools.product(CHECKERS3, ("sync", "async"), SHAPES3))] if full else
                   [(CHECKERS3[i % 3], ("async", "sync", "async")[(i // 3) % 3], SHAPES3[(i // 9) % 3], ALGOS3[(i // 27) % 3])])
         for checker, api, shape, algo in combos:
             cases.append({"fam": "engine_mixed", "obligations": obs, "ctx": ctx, "shape": shape, "algo": algo,
@@ -372,7 +373,8 @@ def gen_morph(chk):
                 i += 1
         if not (thorough or sensitive or dull % 8 == 0):
             continue
-        combos = (list(itertools.product(ROUTES, SHAPES3, (False, True), ("sync", "async"), ("default", "shared")))
+        combos = ([(ro, sh, ca, api, ("default", "shared")[(i + k) % 2])
+                   for k, (ro, sh, ca, api) in enumerate(itertools.product(ROUTES, SHAPES3, (False, True), ("sync", "async")))]
                   if thorough else
                   [(ROUTES[i % 3], SHAPES3[(i // 3) % 3], (i // 9) % 3 == 1, ("async", "sync", "async")[(i // 27) % 3],
                     ("default", "shared")[(i // 2) % 2])])
@@ -787,10 +789,24 @@ def run(chk):
                 "ints, floats, numeric and non-numeric strings, lists, objects, NaN, inf} x decision; all ordered pairs and "
                 "a family of triples of obligations (first failure decides the challenge); odd obligation items; through "
                 "Guard (single policy and set, cold and cached) with the built-in checker and with sync/async custom "
-                "checkers giving negative, positive and raising verdicts. non-trivial = a permit with obligations judged "
-                "by the model; distinct = distinct case")
+                "checkers giving negative, positive and raising verdicts; `mixed` / `engine_mixed`: lists mixing entries "
+                "aimed at permit (met / unmet, each type) with entries aimed at deny that have a challenge (each type, each "
+                "http scheme branch), pairs in both orders, triples in every order, longer shuffles, under both decisions "
+                "and through Guard (built-in / subclass sync / subclass async checker x sync / async API x single / set / "
+                "nested x algorithm; quick: a seed-dependent 1-in-5 sample through Guard, thorough: everything), whole "
+                "Decision against engine.eval; `morph_direct` / `engine_morph`: the same obligation objects seen by the "
+                "library in an earlier state (type unknown / swapped, min / max_age / key loosened or tightened, `on` "
+                "flipped, scheme changed, list reversed / shifted), edited in place into the case's policy and handed again "
+                "to the checker or re-published by update_policy / set_policy / a new Guard. non-trivial = a permit with "
+                "obligations judged by the model (morph families: the earlier state is judged differently by the model); "
+                "distinct = distinct case")
     chk.assumptions = ["CPython's int/str conversion limit is the default 4300 digits (sys.get_int_max_str_digits()); the model treats longer digit strings as a conversion failure, exercised at 4300 / 4301 digits",
                        "non-ASCII strings passed to int() are outside the model (ood)"]
     cases = corpus_cases() + gen_direct(chk) + engine_cases(chk) + gen_mixed(chk) + gen_morph(chk)
     check_cases(chk, cases)
-    chk.exhaustive = True
+    chk.exhaustive = True                             # the enumerated pools; the families below are sampled in the quick tier
+    if chk.tier != "thorough":
+        chk.extra["sampled_in_quick"] = ("mixed: every list under one decision, 1 in 5 under both and through Guard; "
+                                         "morph_direct / engine_morph: every history whose earlier state the model judges "
+                                         "differently, 1 in 4 / 1 in 8 of the others; thorough: all, with the product of "
+                                         "routes x shapes x cache x API")
